@@ -71,6 +71,8 @@ class UDP(_Seg):
 
 
 class IP:
+    __hdr_len__ = 20          # dpkt: length of the fixed part (options are in .opts)
+
     def __init__(self, buf):
         if len(buf) < 20:
             raise NeedData("short IP header")
@@ -107,6 +109,8 @@ class IP:
 
 
 class IP6:
+    __hdr_len__ = 40
+
     def __init__(self, buf):
         if len(buf) < 40:
             raise NeedData("short IPv6 header")
